@@ -5,9 +5,16 @@ VROOT=$(cd "$(dirname "$0")/.." && pwd)
 jobs=${1:-8}; tier=${2:-quick}
 cd $VROOT
 ls -d seeded/*/*/ | sort > /tmp/seedlist.$$
+# the scratch worktrees one after the other (concurrent `git worktree add` calls can lose to each other's lock)
 k=0
 while [ $k -lt $jobs ]; do
-  ( wt=/tmp/sw_$k; git -C /repo worktree add -q --detach $wt HEAD 2>/dev/null
+  git -C /repo worktree add -q --detach /tmp/sw_$k HEAD 2>/dev/null || { sleep 1; git -C /repo worktree add -q --detach /tmp/sw_$k HEAD; }
+  k=$((k+1))
+done
+k=0
+while [ $k -lt $jobs ]; do
+  ( wt=/tmp/sw_$k
+    [ -d "$wt" ] || { echo "worker $k: no worktree"; exit 1; }
     awk -v k=$k -v j=$jobs 'NR % j == k' /tmp/seedlist.$$ | while read d; do
       p=$(basename $(dirname $d)); name=$(basename $d)
       git -C $wt checkout -q -- .
